@@ -402,6 +402,19 @@ def t_store_index(name, path, cls, fn, arrays, var):
     return 'Definition %s (v_%s : Z) %s : Z := %s.' % (name, var, tr.signature(), e)
 
 
+def t_attr_assign(name, path, cls, fn, attr, props):
+    """the value of the single assignment `self.<attr> = e` in a method (an integer expression over self's attributes)"""
+    f = find_func(path, cls, fn)
+    hits = [n for n in ast.walk(f) if isinstance(n, ast.Assign) and len(n.targets) == 1 and isinstance(n.targets[0], ast.Attribute)
+            and n.targets[0].attr == attr and isinstance(n.targets[0].value, ast.Name) and n.targets[0].value.id == 'self']
+    if len(hits) != 1:
+        raise Untranslatable('%s.%s: expected exactly one `self.%s = ...`' % (cls, fn, attr))
+    tr = Tr(cls, props)
+    tr.locals = single_assignments(f)
+    e = tr.expr(hits[0].value, {})
+    return 'Definition %s %s : Z := %s.' % (name, tr.signature(), e)
+
+
 def t_view_upper(name, path, cls, fn, array):
     """the upper bound of the view `self.<array>[:upper]` returned by a property"""
     f = find_func(path, cls, fn)
@@ -467,6 +480,7 @@ def targets():
         t2.attrs |= tr.attrs
         return tmpl % (t2.signature(), cj)
     add('src_update', upd)
+    add('src_reset_start', lambda: t_attr_assign('src_reset_start', 'epsie/proposals/base.py', 'BaseAdaptiveSupport', '_reset_adaptation', 'start_step', BASE_PROPS))
     add('src_jump_delegates', lambda: t_delegates('src_jump_delegates', 'epsie/proposals/base.py', 'BaseProposal', 'jump', '_jump'))
     add('src_logpdf_delegates', lambda: t_delegates('src_logpdf_delegates', 'epsie/proposals/base.py', 'BaseProposal', 'logpdf', '_logpdf'))
     add('src_veitch_window', lambda: t_guard('src_veitch_window', 'epsie/proposals/normal.py', 'AdaptiveSupport', '_update', ad))
